@@ -671,7 +671,9 @@ fn translate_block(
                 | capstone::mips_insn::MIPS_INS_BLTZAL
                 | capstone::mips_insn::MIPS_INS_JAL
                 | capstone::mips_insn::MIPS_INS_JALR => {
-                    block_graphs.push((instruction.address, nop_graph(instruction.address)?));
+                    // the link register is written by the branch, before the
+                    // delay slot executes
+                    block_graphs.push((instruction.address, semantics::link_graph(&instruction)?));
                     branch_delay = TranslateBranchDelay::BranchFallThrough;
                 }
                 capstone::mips_insn::MIPS_INS_JR => {
